@@ -118,6 +118,8 @@ class Engine:
             for want in using:
                 hit = [t for lbl, t in state.facts.items() if lbl == want or lbl.startswith(want)]
                 if not hit:
+                    if want.endswith(':'):
+                        continue        # a whole class of facts (e.g. 'def:'), possibly empty on this path
                     raise Unsupported(f"'using' refers to unknown fact {want!r}")
                 hyps.extend(hit)
             hyps += list(getattr(state, 'guards', []))
@@ -1405,7 +1407,7 @@ class Engine:
             self.oblige(fr, s, 'pre', f'{callee.simple_name}.{label}', b, lineno)
         for name in callee.modifies:
             for arr in _arrays_in(vals[name], s.lists):
-                st.havoc_base(s, arr.base)
+                st.havoc_view(s, arr)
             if isinstance(vals[name], SList):
                 s.lists[vals[name].lid] = tuple(self.havoc_value(x, s, name) for x in s.lists[vals[name].lid])
         rspec = callee.returns(pre) if callable(callee.returns) else callee.returns
@@ -1421,8 +1423,9 @@ class Engine:
         post = Ctx(vals, s.heap, s.lists, config=fr.config)
         ctx = Ctx(vals, pre_heap, pre_lists, post=post, config=fr.config)
         r = wrap(result, post._sink)
+        fr.n_calls = getattr(fr, 'n_calls', 0) + 1
         for label, b in labelled(callee.ensures(ctx, r) if callee.ensures else None, 'ensures'):
-            s.assume(b)
+            s.assume_named(f'call:{callee.simple_name}.{label}#{fr.n_calls}', b)
         info = self.functions.get(fr.contract.target)
         if info is not None:
             info.setdefault('calls', set()).add(callee.target)
